@@ -92,6 +92,15 @@ def run(t):
     ok1 = o["counters"].get("stale_ok", 0)
     o = _vh(run, vh, ["transport-stale", "60" if deep else "10", str(2 << 20)], "stale h2", env={"VERIF_H2": "1"}, timeout=1200)
     ok2 = o["counters"].get("stale_ok", 0)
+    # the same schedule with a scheduler gate in the upload stream: the first attempt's reader is held in a Read until a later
+    # attempt has read its first chunk - deterministic exposure of any reader that outlives its attempt
+    held = 0
+    for env in ({}, {"VERIF_H2": "1"}):
+        o = _vh(run, vh, ["transport-stale", "6" if deep else "2", str(1 << 20), "gated"], "stale gated" + (" h2" if env else ""), env=env, timeout=1200)
+        held += o["counters"].get("gate_held", 0)
+        ok2 += o["counters"].get("stale_ok", 0)
+    if held == 0 and not run.violations:
+        raise NoVerdict("the scheduler gate was never reached")
     if ok1 + ok2 == 0 and not run.violations:
         raise NoVerdict("stale schedule never ran to completion")
     run.cov["rule"] = (f"{nch_run} of {nch} complete write/flush behaviours of {cfg} on the real APK block hasher, each twice (exact multiples of the "
@@ -106,9 +115,8 @@ def run(t):
     run.assumptions += ["key rsa2048, digest sha256 on the transport paths; 8 package types rotate over the transport behaviours",
                         "the embedded-digest oracle is a byte-pattern scan (CMS messageDigest, XML DigestValue, JAR manifest digests, APK "
                         "signing-block digests, SpcIndirectData); PGP types and cat are decided by the verifier alone",
-                        "a reader of an ended attempt issuing one more read after the next attempt has rewound the shared file "
-                        "(Transport_Neg_NonAtomicFence) is a hazard of the model that could not be produced on the real code in 400+ "
-                        "early-answer failovers (net/http fences the old body before the client proceeds); it is not claimed either way",
+                        "the reader of an ended attempt is held by a harness-owned gate inside the stream (third Read) until a later attempt "
+                        "has read, or 400 ms: the model's StaleCheck/StaleRead interleaving made deterministic",
                         "'refused' servers are URLs on a closed local port"]
     return run.finish()
 
